@@ -770,6 +770,9 @@ def run(ctx: Ctx) -> None:
     rep.rule("C09.R15", "as C01.R2: the visitors of both passes descend into every node (a dds.load / dds.keep written in argument position of another call is seen)")
     n15 = _vis.traversal_complete(ctx, "C09.R15")
     rep.floor("C09.R15", n15, 5)
+    if ctx.report.prop == "C09":
+        from .common import share_rules as _share8
+        _share8(ctx, "C08", "C09.R26", ['C08.R15'], "every external path an evaluation loads is answered by fetch_paths (one mapping that lives across the loop, returned after it): a reader of two kept paths is not refused as 'loaded before it is produced'")
 
 
 def _assigned(f: Func) -> set:
